@@ -35,16 +35,19 @@ Seeded (independent) changes: `this == base_val` added to the 'other wins'
 test (needs >= 2 distinct LCA values and THIS == BASE); early exit after three
 distinct LCA values while building the set (needs >= 4 distinct LCA values —
 missed by the first version, which stopped at 3 LCAs in the quick tier).
-Round 2 (T1 of _lca_multi_way, pattern enumeration, typed values): M1 `if not
-other` style truthiness test (`if other == this or not other`); M2 filter
-`lca_val != base_val` -> `lca_val is not base_val`-free variant `lca_val !=
-other`; M3 `unique_lca_vals = set(lca_vals)` (unfiltered); M4 default of
-allow_overriding_lca flipped to False (T1 only: `lca_multi_way_gen_default`
-no longer type-checks against the model's default); M5 the flag-off branch
-returning 'this' when THIS is new and OTHER is an LCA value only for >= 5 LCAs;
-H1 (harmless) `len(filtered_lca_vals) == 0` -> `not filtered_lca_vals` is NOT
-understood by the translator: T1 is recorded as unproved, T2/oracle stay
-clean, exit 0 (DESIGN §2.2 exception for transcription lemmas).
+Round 2 (T1 of _lca_multi_way, pattern enumeration, typed values, more laws) —
+all VIOLATION with a concrete input from the oracle, T1 equality failing too:
+  M1 filter `if lca_val and lca_val != base_val` (falsy LCA values dropped): "all LCAs equal 0 but …";
+  M2 `unique_lca_vals = set(lca_vals)` (base values not filtered): "LCA values equal to the base value are not
+     ignored" (before that law was added: tie break only, no failing input — the statement's other laws hold);
+  M3 default of allow_overriding_lca flipped to False: "without the flag gives conflict, with …=True other"
+     (and `lca_multi_way_gen_default` does not type-check against the transcribed default);
+  M4 `if allow_overriding_lca or (len(lca_vals) >= 5 and this not in lca_vals)`: swap law on a 5-LCA pattern
+     with typed values (translator refuses `len(..) >= 5`: stub generated, T1 lemmas unproved);
+  M5 `len(unique_lca_vals) <= 2`, M6 inner `this not in unique_lca_vals`: as before;
+  H1 (harmless) `len(filtered_lca_vals) == 0` -> `not filtered_lca_vals`: both read as `x = []`, T1 proved, clean;
+  H2 (harmless) comment added: clean.
+Stored seeds C18-lca-base-override and C18-lca-set-early-exit: still VIOLATION (swap law / order dependence).
 """
 import ast
 import itertools
